@@ -1072,6 +1072,7 @@ namespace bxdecay0 {
     this->shoot_e1_e2(prng_, e1, e2);
     this->shoot_cos_theta(prng_, e1, e2, cos12);
     export_to_event(prng_, e1, e2, cos12, ev_);
+    ev_.set_generator(_nuclide_);
     return;
   }
 
